@@ -208,7 +208,7 @@ func runTunnel(tn tunnel) (res result) {
 		res.errs = append(res.errs, fmt.Sprintf(f, a...))
 		mu.Unlock()
 	}
-	up, err := net.Listen("tcp", "127.0.0.1:0")
+	up, err := hx.Listen("tcp", "127.0.0.1:0")
 	if err != nil {
 		fail("listen: %v", err)
 		return
@@ -318,7 +318,7 @@ func runTunnel(tn tunnel) (res result) {
 		srv := httptest.NewServer(&proxy.HTTPProxy{Transport: http.DefaultTransport, Lookup: func(*http.Request) *route.Target { return tg }})
 		frontAddr, closeFront = srv.Listener.Addr().String(), srv.Close
 	} else {
-		ln, err := net.Listen("tcp", "127.0.0.1:0")
+		ln, err := hx.Listen("tcp", "127.0.0.1:0")
 		if err != nil {
 			fail("listen: %v", err)
 			return
@@ -497,6 +497,11 @@ func checkTunnel(fatalf func(string, ...any), tn tunnel) {
 			fatalf("upstream received %d bytes, less than the ClientHello (%d)\n%s", len(res.upstreamGot), hello, tn)
 		}
 	}
+	for _, e := range res.errs {
+		if strings.Contains(e, "address already in use") || strings.Contains(e, "cannot assign requested address") || strings.Contains(e, "too many open files") {
+			fatalf("VERIF-INCONCLUSIVE the harness ran out of local ports/descriptors: %s", e)
+		}
+	}
 	if len(res.errs) > 0 {
 		fatalf("tunnel broke: %s\nupstream got %d of %d bytes, client got %d of %d bytes\n%s", strings.Join(res.errs, "; "), len(res.upstreamGot), len(wantUp), len(res.clientGot), len(tn.upstream), tn)
 	}
@@ -538,7 +543,7 @@ func classify(tn tunnel) {
 const knownHalfClose = "c09-half-close"
 
 func TestC09Tunnels(t *testing.T) {
-	hx.Check(t, hx.Scale(2000, 40000), func(t *rapid.T) {
+	hx.Check(t, hx.Scale(2000, 16000), func(t *rapid.T) {
 		tn := genTunnel(t, []string{"tcp", "sni", "dynamic", "ws"})
 		if tn.mode == "half-close" && hx.Known(knownHalfClose) {
 			// recorded finding: excluded from the search by construction so that the
@@ -629,7 +634,7 @@ func TestC09ReadWithEOF(t *testing.T) {
 		kind := rapid.SampledFrom([]string{"tcp", "sni", "dynamic"}).Draw(t, "kind")
 		data := genStream(t, "c", false)
 		sizes, _ := genSegments(t, "cs", len(data))
-		up, err := net.Listen("tcp", "127.0.0.1:0")
+		up, err := hx.Listen("tcp", "127.0.0.1:0")
 		if err != nil {
 			t.Fatal(err)
 		}
